@@ -55,6 +55,7 @@ func main() {
 		fs.StringVar(&a.OutDir, "out", "", "")
 		fs.StringVar(&knownFile, "known", "", "")
 		fs.BoolVar(&a.Hashes, "hashes", false, "")
+		fs.BoolVar(&a.Fresh, "fresh", false, "")
 		fs.Parse(os.Args[2:])
 		a.Known, _ = core.LoadKnown(knownFile)
 		os.Exit(core.RunWorker(a))
@@ -64,6 +65,7 @@ func main() {
 		phase := fs.String("phase", "", "")
 		file := fs.String("file", "", "")
 		verbose := fs.Bool("v", false, "")
+		stats := fs.Bool("stats", false, "print a STATS line for the parent worker")
 		prelude := fs.String("prelude", "", "JSON array of scenarios to execute first in this process")
 		fs.Parse(os.Args[2:])
 		p, ok := core.Lookup(*prop)
@@ -117,6 +119,10 @@ func main() {
 				fmt.Println("  |", l)
 			}
 			fmt.Printf("  event-log hash %016x, %d events\n", log.Hash(), log.N)
+		}
+		if *stats {
+			b, _ := json.Marshal(core.FreshStats{Nontrivial: res.Nontrivial, Skipped: res.Skipped, Invalid: res.Invalid, Steps: res.Steps, StateKey: res.StateKey, Counters: res.Counters, LogHash: log.Hash(), LogN: log.N})
+			fmt.Printf("STATS %s\n", b)
 		}
 		if res.Violation != nil {
 			b, _ := json.Marshal(res.Violation)
